@@ -49,13 +49,7 @@ def _injective(V):
 
 
 def build(S, tier, seed):
-    S.install([trashdirs.VolumeOf(), trashdirs.HomeTrashDirPath(), put.MkdirP(),
-               put.ForFile(), put.PutMove(), put.PutRemoveFile()],
-              loops={trashdirs.VOLUME_OF_LOOP: trashdirs.volume_of_loop_annot()})
-    S.verify(put.AtomicWrite())
-    S.verify(put.MkdirP())
-    S.verify(put.CreateTrashinfoBasename())
-    S.verify(purge.PathOfBackupCopy())
+    act = put.leaf_vcs(S)
     S.lemma('put/lemma/distinct-infos-own-distinct-payloads', _injective)
     put.trash_file_in_vc(S, conservation=False)
 
